@@ -311,36 +311,51 @@ theorem probe_top (cfg : Cfg) {s0 s : St} (h : Good cfg s0 s) : Good cfg s0 (pro
   have hm := h.1.ack.ackMid
   simp only [probe, emit, runR_cons, C03.ackStep]
   split
-  · rename_i he; simpa using he.symm
+  · rename_i he
+    have : s.lastCommitted = (runR C03.ackStep {} s.out).lc := by simpa using he
+    exact this.symm
   · rcases hm with hm | hm
     · rename_i he; exact absurd (by simpa using hm) he
     · simp [hm]
 
-theorem step_top (cfg : Cfg) (e : Ev) {s : St} (hs : Top cfg s) : Top cfg (step cfg s e) := by
+/-- The induction invariant over events: `Top`, except that after a crash (no probe, every later event
+    rejected) the committed offset is no longer tracked. -/
+def Top' (cfg : Cfg) (s : St) : Prop :=
+  G cfg s ∧ s.frame = none ∧ (s.crashed = true ∨ (runR C03.ackStep {} s.out).lc = s.lastCommitted)
+
+theorem step_top (cfg : Cfg) (e : Ev) {s : St} (hs : Top' cfg s) : Top' cfg (step cfg s e) := by
   have hx := Good.refl hs.1
-  have hlc := hs.2.2
   unfold step
   split
-  · exact ⟨(show Good cfg s _ by leaf hx).1, hs.2.1, by simpa [C03.ackStep] using hlc⟩
-  · split
-    · exact ⟨(show Good cfg s _ by leaf hx).1, hs.2.1, by simpa [C03.ackStep] using hlc⟩
+  · rename_i hcr
+    exact ⟨(show Good cfg s _ by leaf hx).1, hs.2.1, Or.inl hcr⟩
+  · rename_i hcr
+    have hlc : (runR C03.ackStep {} s.out).lc = s.lastCommitted := by
+      rcases hs.2.2 with h | h
+      · exact absurd h hcr
+      · exact h
+    have hs' : Top cfg s := ⟨hs.1, hs.2.1, hlc⟩
+    split
+    · exact ⟨(show Good cfg s _ by leaf hx).1, hs.2.1, Or.inr (by simpa [C03.ackStep] using hlc)⟩
     · rename_i s' h
-      have h1 := stepCore_good cfg e hs h
+      have h1 := stepCore_good cfg e hs' h
       split
-      · sorry
+      · rename_i hc2
+        exact ⟨h1.1, h1.2.trans hs.2.1, Or.inl hc2⟩
       · obtain ⟨h2, h3⟩ := probe_top cfg h1
-        exact ⟨h2.1, h2.2.trans hs.2.1, h3⟩
+        exact ⟨h2.1, h2.2.trans hs.2.1, Or.inr h3⟩
 
-theorem init_top (cfg : Cfg) (script : List PEntry) : Top cfg (init cfg script) := by
-  refine ⟨⟨?_, ?_, ?_, ?_⟩, rfl, rfl⟩
+theorem init_top (cfg : Cfg) (script : List PEntry) : Top' cfg (init cfg script) := by
+  refine ⟨⟨?_, ?_, ?_, ?_, ?_⟩, rfl, Or.inr rfl⟩
   · constructor <;> simp [init, oifOf]
   · constructor <;> simp [init, activeReq, retryPending]
   · constructor <;> simp [init]
   · constructor <;> simp [init]
+  · constructor <;> simp [init]
 
-theorem run_top (cfg : Cfg) (script : List PEntry) (evs : List Ev) : Top cfg (run cfg script evs) := by
+theorem run_top (cfg : Cfg) (script : List PEntry) (evs : List Ev) : Top' cfg (run cfg script evs) := by
   unfold run
-  have : ∀ (evs : List Ev) (s : St), Top cfg s → Top cfg (evs.foldl (step cfg) s) := by
+  have : ∀ (evs : List Ev) (s : St), Top' cfg s → Top' cfg (evs.foldl (step cfg) s) := by
     intro evs
     induction evs with
     | nil => intro s h; exact h
